@@ -120,6 +120,58 @@ def check_case(cls, x, cfg, NFFT, c, sampling=1.0):
     return None
 
 
+def regrid_change(cls, cfg, which):
+    """(attribute, new value) changed between two NFFT assignments on one object; which = 0: the data, 1: a class-specific setting"""
+    if which == 0 or cls == 'MultiTapering':
+        return ('data', None)
+    if cls == 'Periodogram':
+        return ('window', 'bartlett' if cfg.get('window') != 'bartlett' else 'hann')
+    if cls == 'pcorrelogram':
+        return ('lag', cfg['lag'] + 1)
+    if cls in ('pburg', 'pyule', 'pcovar', 'pmodcovar', 'pminvar'):
+        return ('ar_order', cfg['order'] + 1)
+    if cls in ('pmusic', 'pev'):
+        return ('ar_order', cfg['IP'] + 1)
+    if cls in ('parma', 'pma'):
+        return ('ma_order', cfg['Q'] + 1)
+    raise KeyError(cls)
+
+
+def check_regrid(cls, x, x2, cfg, NFFT, c, which, sampling=1.0):
+    """ONE object: read at NFFT, NFFT := c*NFFT, change something, read, NFFT := NFFT again, read.  The last read must be the
+    estimate of a fresh object with the final settings on the coarse grid and agree with the fine-grid read at common frequencies
+    (the NFFT setter keeps the data and recomputes only the grid).  None if it holds, else a description"""
+    attr, val = regrid_change(cls, cfg, which)
+    if attr == 'data':
+        val = x2
+    p = E.build(cls, x, cfg, NFFT=NFFT, sampling=sampling, scale_by_freq=False)
+    _ = np.array(p.psd)
+    p.NFFT = c * NFFT
+    setattr(p, attr, val)
+    s1 = np.array(p.psd); f1 = np.array(p.frequencies())
+    p.NFFT = NFFT
+    s2 = np.array(p.psd); f2 = np.array(p.frequencies())
+    q = E.build(cls, x, cfg, NFFT=NFFT, sampling=sampling, scale_by_freq=False)
+    setattr(q, attr, val)
+    ref = np.array(q.psd)
+    if len(s2) != len(f2) or len(s1) != len(f1):
+        return 'psd and frequencies() differ in length after NFFT was re-assigned'
+    if s2.shape != ref.shape:
+        return 'after returning to NFFT=%d the object holds %d values, a fresh object %d' % (NFFT, len(s2), len(ref))
+    rtol = 1e-3 if (cls == 'MultiTapering' and cfg.get('method') == 'adapt') else 1e-7
+    scale = max(np.max(np.abs(ref)), 1e-300)
+    if not np.all(np.isfinite(s2)) or np.max(np.abs(s2 - ref)) / scale > 1e-9:
+        return ('after NFFT: %d -> %d, %s changed, NFFT -> %d the estimate differs from a fresh object with the same settings '
+                '(relative error %.3g)' % (NFFT, c * NFFT, attr, NFFT, np.max(np.abs(s2 - ref)) / scale))
+    idx = c * np.arange(len(s2))
+    if np.any(idx >= len(s1)):
+        return 'the fine grid has no entry for a coarse entry'
+    err = np.max(np.abs(s1[idx] - s2)) / scale
+    if err > rtol:
+        return 'the two grids of one object disagree at a common frequency after %s changed (relative error %.3g)' % (attr, err)
+    return None
+
+
 def fn_eval(name, x, cfg, NFFT):
     from spectrum import speriodogram, CORRELOGRAMPSD, arma2psd, minvar, pmtm
     if name == 'speriodogram':
@@ -159,6 +211,11 @@ def replay(rep):
     if r['datatype'] == 'real':
         x = np.real(x)
     try:
+        if r.get('form') == 'regrid':
+            x2 = vlib.unhexv(r['x2'])
+            if r['datatype'] == 'real':
+                x2 = np.real(x2)
+            return check_regrid(r['estimator'], x, x2, r['cfg'], r['NFFT'], r['c'], r['which'], r.get('sampling', 1.0)) is None
         if r.get('form') == 'function':
             return check_fn(r['estimator'], x, r['cfg'], r['NFFT'], r['c']) is None
         return check_case(r['estimator'], x, r['cfg'], r['NFFT'], r['c'], r.get('sampling', 1.0)) is None
@@ -248,6 +305,30 @@ def run(ctx):
         if what is not None:
             ctx.violation('grid/%s/%s/%s' % (cls, tag, 'NFFT-even' if NFFT % 2 == 0 else 'NFFT-odd'),
                           '%s (%s data, NFFT=%d vs %d): %s' % (cls, tag, NFFT, c * NFFT, what), rep)
+
+    # ---------------- one object whose NFFT is re-assigned (the NFFT setter keeps the data and recomputes only the grid)
+    for it in range(ctx.q(8, 40) * len(E.CLASSES)):
+        cls = E.CLASSES[it % len(E.CLASSES)]
+        cplx = bool((it // len(E.CLASSES)) % 2); N = int(rng.integers(16, 41))
+        x, kind = E.gen_data(rng, N, cplx); x2, _ = E.gen_data(rng, N, cplx)
+        cfg = E.default_cfg(cls, N, rng, cplx)
+        which = int(rng.integers(0, 3) > 0)
+        NFFT = max(admissible_nfft(cls, cfg, N, rng), 2 * cfg.get('lag', 0) + 3 if cls == 'pcorrelogram' else 0, 2 * cfg.get('order', 0) + 2 if cls == 'pminvar' else 0)
+        chg = regrid_change(cls, cfg, which)
+        if chg[0] in ('ar_order', 'ma_order'):
+            NFFT = max(NFFT, chg[1] + 2)                  # admissible for the order assigned later as well
+        c = int(rng.choice([2, 3, 4])); tag = 'complex' if cplx else 'real'
+        ctx.count('search/regrid/%s/%s' % (cls, tag))
+        ctx.case(('regrid', cls, json.dumps(jcfg(cfg), sort_keys=True), NFFT, c, which, x.tobytes()), nontrivial=True,
+                 sample={'estimator': cls, 'cfg': jcfg(cfg), 'N': N, 'history': 'read; NFFT:=%d; %s changed; read; NFFT:=%d; read' % (c * NFFT, regrid_change(cls, cfg, which)[0], NFFT)})
+        rep = {'form': 'regrid', 'estimator': cls, 'cfg': jcfg(cfg), 'NFFT': NFFT, 'c': c, 'which': which, 'x': vlib.hexv(np.asarray(x, dtype=complex)),
+               'x2': vlib.hexv(np.asarray(x2, dtype=complex)), 'datatype': tag}
+        try:
+            what = check_regrid(cls, x, x2, cfg, NFFT, c, which)
+        except Exception as e:
+            what = 'raised %s: %s' % (type(e).__name__, str(e)[:100])
+        if what is not None:
+            ctx.violation('regrid/%s/%s' % (cls, tag), '%s (%s data): %s' % (cls, tag, what), rep)
 
     # ---------------- functional forms (incl. mean removal, explicit coefficient vectors)
     FN = ['speriodogram', 'CORRELOGRAMPSD', 'arma2psd', 'minvar', 'pmtm']
